@@ -115,6 +115,12 @@ class ExcelInPython:
 
     def _compare(self, operator: str, left_operand: str | int | float | datetime.date | datetime.datetime,
                           right_operand: str | int | float | datetime.date | datetime.datetime) -> bool:
+        # пустая ячейка рядом с текстом сравнивается как пустая строка (а не как число 0)
+        if isinstance(left_operand, self.EmptyCell) and isinstance(right_operand, str):
+            left_operand = ''
+        elif isinstance(right_operand, self.EmptyCell) and isinstance(left_operand, str):
+            right_operand = ''
+
         try:
             # целочисленное сравнение допустимо только если приведение к int ничего не отбрасывает
             if any(isinstance(i, float) and not i.is_integer() for i in (left_operand, right_operand)):
